@@ -243,10 +243,14 @@ def scanStep (a : Arr) (mapping : Option (List (Int × Int))) (common : Int) (co
 def buildScan (a : Arr) (mapping : Option (List (Int × Int))) (common : Int) : M (List (Key × Rows)) :=
   a.cols.foldlM (fun es col => (List.range a.nrows).foldlM (scanStep a mapping common col) es) []
 
+/-- `final_counts[mapping[dv]] += c` -/
+def finalStep (mapping : Option (List (Int × Int))) (fc : List (Int × Int)) (c : Int × Int) : M (List (Int × Int)) := do
+  pure (cadd fc (← mapVal mapping c.1) c.2)
+
 def finalCountsOf (mapping : Option (List (Int × Int))) (counts : List (Int × Int)) : M (List (Int × Int)) :=
   match mapping with
   | none => pure counts
-  | some _ => counts.foldlM (fun fc (c : Int × Int) => do pure (cadd fc (← mapVal mapping c.1) c.2)) []
+  | some _ => counts.foldlM (finalStep mapping) []
 
 /-- common selection: caller's (mapped), else the first strict maximum in dict order, else the smallest
 mapping target, else `ValueError` -/
